@@ -280,10 +280,10 @@ func (e2eFamily) Exec(id int, raw json.RawMessage) Case {
 			}
 			go node.mgr.Setup(cl.ctx, transport.Metadata{Name: "script", Channel: k.conn})
 			k.conn.Feed(encConnect(o.CID, o.User, o.Pass, ka, o.Will, true))
-			if !k.conn.WaitOutCount(1, 3*time.Second) {
+			if !k.conn.WaitOutCount(1, cl.wait()) {
 				tags["no-connack"] = true
 			}
-			k.conn.WaitIdle(2 * time.Second)
+			k.conn.WaitIdle(cl.wait())
 			syncMsg = settle(nil)
 			withDl = true
 			opT = fmt.Sprintf("EConnect %s %s %s %s %s %s %s %s", cqNat(o.N), cqStr(o.C), cqStr(o.CID), cqStr(o.User), cqStr(o.Pass), cqZ(int64(ka)), cqOptPubE(o.Will), cqZ(clk))
@@ -339,19 +339,19 @@ func (e2eFamily) Exec(id int, raw json.RawMessage) Case {
 				panic("unknown packet kind " + o.P)
 			}
 			k.conn.Feed(buf)
-			k.conn.WaitIdle(3 * time.Second)
+			k.conn.WaitIdle(cl.wait())
 			syncMsg = settle(k)
 			withDl = o.P != "disc" && o.P != "connect"
 		case "eof":
 			k.conn.ClientEOF()
-			if !k.conn.WaitClosed(3 * time.Second) {
+			if !k.conn.WaitClosed(cl.wait()) {
 				tags["not-closed"] = true
 			}
 			syncMsg = settle(nil)
 			opT = fmt.Sprintf("EEof %s %s", cqStr(o.C), cqZ(clk))
 		case "timeout":
 			k.conn.FireTimeout()
-			if !k.conn.WaitClosed(3 * time.Second) {
+			if !k.conn.WaitClosed(cl.wait()) {
 				tags["not-closed"] = true
 			}
 			syncMsg = settle(nil)
